@@ -120,14 +120,14 @@ def report_l2(ctx, fails, limit=3):
                            replay_hint="suites.engine.run_case(engine_specs.<template>, seed) reproduces the run"))
 
 
-def run_runnerdiff(ctx, n, theorems):
+def run_runnerdiff(ctx, n, theorems, need_outcomes=()):
     """L2 runner differential (suites/runnerdiff.py): complete processed-tick log, published stream and outcome of real
     runs vs Model/Runner.v, compared exactly inside Coq.  A disagreement without a concrete monitor failure is
     reported as `no-failing-input-found`, naming the runner-level theorems that rest on the model."""
     import random
     from suites import engine_specs as S, runnerdiff as RD
     rng = random.Random(ctx.seed * 211 + 5)
-    tmpls = [S.rd_fan, S.rd_wait, S.rd_ir, S.retrychain, S.retrywait, S.tworetries, S.rd_multi]
+    tmpls = [S.rd_fan, S.rd_wait, S.rd_ir, S.retrychain, S.retrywait, S.tworetries, S.rd_multi, S.rd_exit_cancel, S.rd_exit_timeout, S.rd_exit_fail]
     exprs, infos, skipped = [], [], 0
     for i in range(n):
         seed = rng.randrange(1 << 30)
@@ -153,7 +153,9 @@ def run_runnerdiff(ctx, n, theorems):
     ctx.programs += n
     ctx.mark("runnerdiff")
     ctx.suite("runnerdiff", cases=len(exprs), skipped=skipped, disagreements=len(bad), ticks=tot("ticks"), idle_checks=tot("idle_checks"),
-              time_advances=tot("delayed"), external_deliveries=tot("externals"), published=tot("published"))
+              time_advances=tot("delayed"), external_deliveries=tot("externals"), published=tot("published"),
+              **{"runs_ended_by_" + nm: sum(1 for x in infos if x[2]["outcome"] == code)
+                 for code, nm in ((1, "result"), (2, "failure"), (3, "cancellation"), (4, "timeout"))})
     ctx.disagreements += len(bad)
     ctx.disagreements_checked += len(bad)
     if bad:
@@ -170,4 +172,7 @@ def run_runnerdiff(ctx, n, theorems):
     ctx.require_coverage("runnerdiff", "idle_checks", tot("idle_checks"), 10)
     ctx.require_coverage("runnerdiff", "time_advances", tot("delayed"), 3)
     ctx.require_coverage("runnerdiff", "external_deliveries", tot("externals"), 5)
+    for code, nm in ((1, "result"), (2, "failure"), (3, "cancellation"), (4, "timeout")):
+        if code in need_outcomes:
+            ctx.require_coverage("runnerdiff", "runs_ended_by_" + nm, sum(1 for x in infos if x[2]["outcome"] == code), 1)
     return len(bad)
